@@ -28,7 +28,7 @@ RULE = ("argv grammar over the five sub-commands and the global options with val
         "to file, dangling symlink, missing parent, file-as-parent; option order permutations, duplicated options, missing "
         "command, unknown options); each argv run in-process (audit hook + probes) and a sample as real subprocesses (directory "
         "diff, some under strace); distinct = distinct (monitor, case) digests"
-        " EXTENSIONS: + decoy sibling files (target.tmp, target~, .target.swp ...) that must survive, symlinks with relative targets named from another directory / chained / to the parent directory, accounts equal to meaningful numbers, values wrapping modulo 2^32, reversed straddling intervals, the request handed to PaperWallet.generate for intervals of K-1 .. 2K+1 rows per harvested K and of 2^31 rows (recorder; mismatch confirmed end to end in fast mode)")
+        " EXTENSIONS: + decoy sibling files (target.tmp, target~, .target.swp ...) that must survive, symlinks with relative targets named from another directory / chained / to the parent directory, accounts equal to meaningful numbers, values wrapping modulo 2^32, reversed straddling intervals, the request handed to PaperWallet.generate for intervals of K-1 .. 2K+1 rows per harvested K and of 2^31 rows (recorder; mismatch confirmed end to end in fast mode), export targets on another file system (EXDEV for rename / link) with decoys there")
 LEVEL_TEXT = ("Outcome-based monitor on real CLI executions: a non-zero exit must come with no wallet data on stdout and no "
               "file created or modified (directory diff + audit 'open' events + strace on a sample); exit 0 must print/save JSON "
               "identical to what the library API returns for the same secret/network/account/interval (through an independent "
@@ -43,9 +43,37 @@ WALLET_KEYS = ("MASTER", "BIP85", "BIP44", "BIP49", "BIP84", "account_extended_k
 
 
 # ------------------------------------------------------------------ environment snapshot
+def other_filesystem_dir():
+    """A fresh directory on a file system OTHER than the one scratch directories live on (rename / link across the two fails
+    with EXDEV), or None when this machine has none that is writable."""
+    here = os.stat(tempfile.gettempdir()).st_dev
+    for cand in ("/dev/shm", "/run/shm", "/var/tmp", "/run/user/%d" % os.getuid(), os.path.expanduser("~")):
+        try:
+            if os.path.isdir(cand) and os.stat(cand).st_dev != here and os.access(cand, os.W_OK):
+                return tempfile.mkdtemp(prefix="vp-c20-otherfs-", dir=cand)
+        except OSError:
+            continue
+    return None
+
+
+def scratch_rel(path, d):
+    """Key of `path` in snap(d): relative to d, with what lies behind the `otherfs` link (another file system) mapped back
+    under it; None for a path outside the scratch area."""
+    rp = os.path.realpath(path)
+    rd = os.path.realpath(d)
+    if rp.startswith(rd + os.sep):
+        return os.path.relpath(rp, rd)
+    link = os.path.join(d, "otherfs")
+    if os.path.islink(link):
+        ro = os.path.realpath(link)
+        if rp.startswith(ro + os.sep):
+            return os.path.join("otherfs", os.path.relpath(rp, ro))
+    return None
+
+
 def snap(d):
     out = {}
-    for root, dirs, files in os.walk(d):
+    for root, dirs, files in os.walk(d, followlinks=True):
         for name in dirs + files:
             p = os.path.join(root, name)
             rel = os.path.relpath(p, d)
@@ -79,6 +107,15 @@ def prepare_dir(d, fcase):
         return os.path.join("sub", "w.json")
     if kind == "new-absolute":
         return os.path.join(d, "abs.json")
+    if kind in ("new-on-other-filesystem", "new-on-other-filesystem-absolute"):
+        # the target's directory lives on another file system than the working directory and the system temp directory
+        other = other_filesystem_dir()
+        if other is None:
+            return "wallet.json"
+        os.symlink(other, os.path.join(d, "otherfs"))
+        for pat in ("%s.tmp", "%s~", ".%s.tmp", "%s.part"):
+            open(os.path.join(other, pat % "w.json"), "w").write("decoy\n")
+        return os.path.join("otherfs", "w.json") if kind == "new-on-other-filesystem" else os.path.join(other, "w.json")
     if kind == "existing":
         return "keep.txt"
     if kind == "existing-absolute":
@@ -292,7 +329,7 @@ def judge_run(ctx, case, mode):
         allowed_new = set()
         if rc == 0 and fval not in (None, ""):
             tgt = os.path.realpath(os.path.join(d, fval))
-            allowed_new.add(os.path.relpath(tgt, d))
+            allowed_new.add(scratch_rel(tgt, d) or os.path.relpath(tgt, d))
         fbad = []
         if changed:
             fbad.append(("existing_modified", sorted(changed)))
@@ -304,18 +341,18 @@ def judge_run(ctx, case, mode):
             for ev in res["audit"]:
                 if ev[0] == "open-write":
                     p = os.path.realpath(ev[1] if os.path.isabs(ev[1]) else os.path.join(d, ev[1]))
-                    inside = p.startswith(os.path.realpath(d) + os.sep)
-                    if os.path.lexists(p) and (not inside or os.path.relpath(p, d) not in allowed_new):
+                    inside = scratch_rel(p, d) is not None
+                    if os.path.lexists(p) and (not inside or scratch_rel(p, d) not in allowed_new):
                         fbad.append(("audit_write_open", ev[1]))
                 elif ev[0] in ("os.remove", "os.rename", "os.truncate", "os.rmdir", "shutil.rmtree"):
                     # an implementation may write a temporary file of ITS OWN making and move it onto the new target, or delete
                     # it again (atomic export): harmless.  What counts is a path that existed BEFORE the run.
                     src = os.path.realpath(ev[1] if os.path.isabs(ev[1]) else os.path.join(d, ev[1]))
-                    src_in = src.startswith(os.path.realpath(d) + os.sep)
-                    own_temp = src_in and os.path.relpath(src, d) not in before
+                    src_in = scratch_rel(src, d) is not None
+                    own_temp = src_in and scratch_rel(src, d) not in before
                     if ev[0] == "os.rename" and len(ev) > 2:
                         dst = os.path.realpath(ev[2] if os.path.isabs(ev[2]) else os.path.join(d, ev[2]))
-                        dst_ok = dst.startswith(os.path.realpath(d) + os.sep) and (os.path.relpath(dst, d) in allowed_new or os.path.relpath(dst, d) not in before)
+                        dst_ok = scratch_rel(dst, d) is not None and (scratch_rel(dst, d) in allowed_new or scratch_rel(dst, d) not in before)
                         if own_temp and dst_ok:
                             continue
                     elif ev[0] == "os.remove" and own_temp:
@@ -330,8 +367,8 @@ def judge_run(ctx, case, mode):
                 rp = os.path.realpath(p if os.path.isabs(p) else os.path.join(d, p))
                 if not os.path.lexists(rp) or "__pycache__" in rp or rp.endswith(".pyc"):
                     continue
-                inside = rp.startswith(os.path.realpath(d) + os.sep)
-                if not inside or os.path.relpath(rp, d) not in allowed_new:
+                inside = scratch_rel(rp, d) is not None
+                if not inside or scratch_rel(rp, d) not in allowed_new:
                     fbad.append(("strace_persisting_file", p))
         ctx.judge("file_effects", not fbad, log_case, {"allowed_new": sorted(allowed_new)}, fbad[:4],
                   cls="fx|%s|%s|rc%s" % (case["file"]["kind"], mode, "0" if rc == 0 else "n"), mech="C20.file." + (fbad[0][0] if fbad else ""))
@@ -381,6 +418,9 @@ def judge_run(ctx, case, mode):
         ctx.judge("outcome.exit0_equals_api", ok, log_case, None, {"diff": dd[:3], "shape": shape[:3]}, cls=cls,
                   mech="C20.rows_not_bip44" if shape else "C20.exit0_differs_from_api")
     finally:
+        link = os.path.join(d, "otherfs")
+        if os.path.islink(link):
+            shutil.rmtree(os.path.realpath(link), ignore_errors=True)
         shutil.rmtree(d, ignore_errors=True)
 
 
@@ -446,7 +486,8 @@ def install_probes():
 
 
 # ------------------------------------------------------------------ generators
-FILE_KINDS = ["none", "none", "none", "none", "new", "new", "new-in-subdir", "new-absolute", "existing", "existing-absolute", "directory",
+FILE_KINDS = ["none", "none", "none", "none", "new", "new", "new-in-subdir", "new-absolute", "new-on-other-filesystem", "new-on-other-filesystem-absolute",
+              "existing", "existing-absolute", "directory",
               "symlink-to-file", "dangling-symlink", "missing-parent", "file-as-parent", "empty", "dot",
               "symlink-in-subdir-relative", "symlink-in-subdir-via-absolute-path", "symlink-chain", "symlink-to-parent-file"]
 ACCOUNTS = [("valid", "0"), ("valid", "1"), ("valid", "7"), ("valid", "44"), ("valid", "49"), ("valid", "84"), ("valid", "83696968"), ("valid", "1000000"),
@@ -642,7 +683,7 @@ def gen_case(rnd, j):
         if not clean or fault == "valid":
             break
     case = {"cmd": cmd, "cmd_args": args, "source": src, "fault": fault, "testnet": rnd.random() < 0.4, "paranoia": rnd.random() < 0.4,
-            "file": {"kind": rnd.choice(["none", "none", "new", "new-in-subdir", "new-absolute", "dangling-symlink"] if clean else FILE_KINDS),
+            "file": {"kind": rnd.choice(["none", "none", "new", "new-in-subdir", "new-absolute", "dangling-symlink", "new-on-other-filesystem", "new-on-other-filesystem-absolute"] if clean else FILE_KINDS),
                      "flag": rnd.choice(["-f", "--file"])}}
     if rnd.random() < 0.6:
         atag, a = rnd.choice([x for x in ACCOUNTS if x[0] in ("valid", "lenient")] if clean else ACCOUNTS)
